@@ -340,6 +340,18 @@ class Index:
     def need_class(self, modname: str, cname: str) -> ClassInfo:
         m = self.module(modname)
         if cname not in m.classes:
+            # the class may have moved to another module of the package (re-exported here, or defined exactly once elsewhere)
+            try:
+                s = self.resolve(m, cname)
+            except AnalysisError:
+                s = None
+            if s is not None and s.kind == "class" and ":" in s.qual:
+                ci = self.class_by_qual(s.qual)
+                if ci is not None:
+                    return ci
+            homes = [mm.classes[cname] for mm in self.modules.values() if cname in mm.classes]
+            if len(homes) == 1:
+                return homes[0]
             raise AnchorMissing(f"class {modname}:{cname} not found", site=f"{m.relpath}:{cname}")
         return m.classes[cname]
 
@@ -348,6 +360,19 @@ class Index:
         for d in reversed(m.defs.get(name, [])):
             if isinstance(d, (ast.Assign, ast.AnnAssign)) and d.value is not None:
                 return m, d.value
+        # moved with a re-export, or defined exactly once elsewhere in the package
+        try:
+            s = self.resolve(m, name)
+        except AnalysisError:
+            s = None
+        if s is not None and s.kind == "assign" and s.module is not None and s.module is not m:
+            for d in reversed(s.module.defs.get(name, [])):
+                if isinstance(d, (ast.Assign, ast.AnnAssign)) and d.value is not None:
+                    return s.module, d.value
+        homes = [(mm, d) for mm in self.modules.values() for d in mm.defs.get(name, [])
+                 if isinstance(d, (ast.Assign, ast.AnnAssign)) and d.value is not None and not isinstance(d.value, ast.Name)]
+        if len(homes) == 1:
+            return homes[0][0], homes[0][1].value
         raise AnchorMissing(f"assignment {modname}:{name} not found", site=f"{m.relpath}:{name}")
 
     def all_classes(self):
@@ -357,9 +382,54 @@ class Index:
     def class_by_qual(self, qual: str) -> Optional[ClassInfo]:
         modname, cname = qual.split(":")
         m = self.modules.get(modname)
-        if m is None:
-            return None
-        return m.classes.get(cname)
+        if m is not None and cname in m.classes:
+            return m.classes[cname]
+        # the reference name of a class that has moved: where it lives now
+        if m is not None:
+            try:
+                return self.need_class(modname, cname)
+            except AnalysisError:
+                return None
+        homes = [mm.classes[cname] for mm in self.modules.values() if cname in mm.classes]
+        return homes[0] if len(homes) == 1 else None
+
+    # ------------------------------------------------------------------ reference names of moved definitions
+    def canonical_qual(self, kind: str, qual: str) -> str:
+        """A function / class / module-level assignment of the reference tree that now lives in another module keeps the
+        qualified name the rules know it by (its home on the reference tree), provided the name had exactly one home there
+        and the module it is found in did not define it on the reference tree."""
+        if ":" not in qual or kind not in ("func", "class", "assign"):
+            return qual
+        mod, name = qual.split(":", 1)
+        top = name.split(".")[0]
+        table = _HOMES.get("class" if (kind == "func" and "." in name) else kind, {})
+        homes = table.get(top, [])
+        if len(homes) == 1 and homes[0] != mod and top not in _PINNED_TOP.get("class" if (kind == "func" and "." in name) else kind, {}).get(mod, ()):
+            return f"{homes[0]}:{name}"
+        return qual
+
+
+def _load_homes():
+    import json
+    here = os.path.dirname(os.path.abspath(__file__))
+    homes = {"func": {}, "class": {}, "assign": {}}
+    tops = {"func": {}, "class": {}, "assign": {}}
+    for kind, fn in (("func", "pinned_names.json"), ("class", "pinned_classes.json"), ("assign", "pinned_assigns.json")):
+        try:
+            with open(os.path.join(here, fn)) as f:
+                tab = json.load(f)
+        except OSError:
+            continue
+        for mod, names in tab.items():
+            for n in names:
+                if kind == "func" and "." in n:
+                    continue
+                homes[kind].setdefault(n, []).append(mod)
+                tops[kind].setdefault(mod, set()).add(n)
+    return homes, tops
+
+
+_HOMES, _PINNED_TOP = _load_homes()
 
 
 def dotted_name(expr: ast.expr) -> Optional[str]:
